@@ -59,10 +59,12 @@ class SymWorld:
 
 
 class SmoothFn:
-    """concrete smooth function of k columns with all mixed partials available through autograd"""
+    """concrete smooth function of k columns with all mixed partials available through autograd.
+    `variant` 0: generic nonlinear; 1: affine in every argument (constant partials: autograd returns gradients that do
+    not require grad); 2: nonlinear in the first argument, affine in the others"""
 
-    def __init__(self, rng, name):
-        self.rng, self.name = rng, name
+    def __init__(self, rng, name, variant=0):
+        self.rng, self.name, self.variant = rng, name, variant
         self.w = {}
 
     def __call__(self, *xs):
@@ -74,6 +76,10 @@ class SmoothFn:
         a, b, c, d = self.w[k]
         s1 = sum(ai * x for ai, x in zip(a, xs)) + b
         s2 = sum(ci * x for ci, x in zip(c, xs)) + d
+        if self.variant == 1:
+            return s1 + 0.5 * s2
+        if self.variant == 2:
+            return torch.sin(a[0] * xs[0] + b) + s2
         return torch.sin(s1) + 0.5 * torch.tanh(s2) + 0.1 * s1 * s2
 
 
@@ -82,6 +88,7 @@ class RealWorld:
 
     def __init__(self, seed, n_rows=5):
         self.rng = random.Random(seed)
+        self.fn_variant = seed % 3
         self.n = n_rows
         self.values = {}
         self.nets = {}
@@ -115,7 +122,7 @@ class RealWorld:
 
     def fn(self, name, arity=None, mi=None):
         if name not in self.fns:
-            self.fns[name] = SmoothFn(self.rng, name)
+            self.fns[name] = SmoothFn(self.rng, name, self.fn_variant)
         base = self.fns[name]
         if mi is None or not any(mi):
             return base
@@ -178,8 +185,11 @@ def replay(node, rw, memo=None):
             raise Untranslatable('network symbol with pre-set multi-index')
     elif op == 'grad':
         u, t = ev(node.args[0]), ev(node.args[1])
-        g, = torch.autograd.grad(u, t, torch.ones_like(u), create_graph=True, allow_unused=True)
-        r = g if g is not None else torch.zeros_like(t)
+        if not u.requires_grad:      # a constant (e.g. the gradient of an affine field): its derivative is zero
+            r = torch.zeros_like(t)
+        else:
+            g, = torch.autograd.grad(u, t, torch.ones_like(u), create_graph=True, allow_unused=True)
+            r = g if g is not None else torch.zeros_like(t)
     else:
         raise Untranslatable(op)
     memo[node.id] = r
